@@ -25,6 +25,7 @@ enum MemberKeyInfo {
 impl Compiler {
     /// Compile an expression, placing result in the specified destination register
     pub fn compile_expression(&mut self, expr: &Expression, dst: Register) -> Result<(), JsError> {
+        self.check_depth()?;
         self.builder.set_span(expr.span());
 
         match expr {
@@ -2538,6 +2539,7 @@ impl Compiler {
 
         // Create a new compiler for the function body
         let mut func_compiler = super::Compiler::new();
+        func_compiler.stack_base = self.stack_base;
 
         // Reserve registers for parameters - they are passed in registers 0, 1, 2...
         // We must reserve these before any other register allocation
